@@ -30,7 +30,8 @@ SqPre ==  CASE BACKEND = "u64"  -> 80000
             [] BACKEND = "u32"  -> 33635                   \* 19*x fits in u32
             [] BACKEND = "avx2" -> 28284                   \* b < 1.5
 \* sub / neg add 16p (serial) : the subtrahend must stay below 16p and the sum must fit the word
-SubPreB == CASE BACKEND = "u64" -> 159999 [] BACKEND = "u32" -> 159999 [] BACKEND = "avx2" -> 40000 * 4   \* Neg: b < 4.0
+SubPreB == IF MUTANT = "neg_from_2p" THEN 19999       \* kept counterexample: negation / subtraction bias 2p instead of 16p
+           ELSE CASE BACKEND = "u64" -> 159999 [] BACKEND = "u32" -> 159999 [] BACKEND = "avx2" -> 40000 * 4   \* Neg: b < 4.0
 SubPreA == CASE BACKEND = "u64" -> 81920000 - 160000       \* a + 2^55 < 2^64
              [] BACKEND = "u32" -> 640000 - 160000         \* a + 2^30 < 2^32 (26-bit limbs)
              [] BACKEND = "avx2" -> 640000
@@ -53,6 +54,10 @@ Exec(prog, env0) ==
                         [] I.op = "sq"  -> <<Red, x < SqPre>>
                         [] I.op = "sq2" -> <<Red, x < SqPre>>
                         [] I.op = "cp"  -> <<x, TRUE>>
+                        \* conditional_assign / conditional_select: either operand
+                        [] I.op = "csel" -> <<IF x >= y THEN x ELSE y, TRUE>>
+                        \* conditional_negate computes the negation unconditionally, then selects
+                        [] I.op = "cneg" -> <<IF x >= Red THEN x ELSE Red, x < SubPreB>>
              IN Go(i + 1, (I.d :> r[1]) @@ env, IF r[2] THEN bad ELSE bad \cup {<<i, I.op, I.d, x, y>>})
   IN Go(1, env0, {})
 
@@ -103,11 +108,74 @@ Ladder == <<
   Ins("t14", "mul", "t4", "t5"), Ins("t15", "add", "t13", "t5"), Ins("t16", "mul", "t6", "t15"), Ins("t17", "mul", "aff", "t12"),
   Ins("PU", "cp", "t14", "t14"), Ins("PW", "cp", "t16", "t16"), Ins("QU", "cp", "t11", "t11"), Ins("QW", "cp", "t17", "t17") >>
 
+\* ---- exponent chains, square roots, encoders and maps (field.rs, edwards.rs, ristretto.rs, montgomery.rs) --------------
+\* pow22501(x) -> p19, p3: x is squared and is the LEFT operand of one multiplication; everything else is reduced
+Pow22501(x) == <<
+  Ins("e0", "sq", x, x), Ins("e1", "sq", "e0", "e0"), Ins("e1", "sq", "e1", "e1"), Ins("e2", "mul", x, "e1"), Ins("p3", "mul", "e0", "e2"),
+  Ins("e4", "sq", "p3", "p3"), Ins("e5", "mul", "e2", "e4"), Ins("e6", "sq", "e5", "e5"), Ins("e7", "mul", "e6", "e5"),
+  Ins("e8", "sq", "e7", "e7"), Ins("e9", "mul", "e8", "e7"), Ins("e10", "sq", "e9", "e9"), Ins("e11", "mul", "e10", "e9"),
+  Ins("e12", "sq", "e11", "e11"), Ins("e13", "mul", "e12", "e7"), Ins("e14", "sq", "e13", "e13"), Ins("e15", "mul", "e14", "e13"),
+  Ins("e16", "sq", "e15", "e15"), Ins("e17", "mul", "e16", "e15"), Ins("e18", "sq", "e17", "e17"), Ins("p19", "mul", "e18", "e13") >>
+Invert(x) == Pow22501(x) \o << Ins("e20", "sq", "p19", "p19"), Ins("inv", "mul", "e20", "p3") >>
+PowP58(x) == Pow22501(x) \o << Ins("e20", "sq", "p19", "p19"), Ins("p58", "mul", x, "e20") >>
+\* sqrt_ratio_i(u, v) -> r
+SqrtRatioI(u, v) == <<
+  Ins("v2", "sq", v, v), Ins("v3", "mul", "v2", v), Ins("v3s", "sq", "v3", "v3"), Ins("v7", "mul", "v3s", v),
+  Ins("uv3", "mul", u, "v3"), Ins("uv7", "mul", u, "v7") >> \o PowP58("uv7") \o <<
+  Ins("r", "mul", "uv3", "p58"), Ins("rs", "sq", "r", "r"), Ins("chk", "mul", v, "rs"),
+  Ins("nu", "neg", u, u), Ins("nui", "mul", "nu", "kC"), Ins("rp", "mul", "kC", "r"), Ins("r", "csel", "r", "rp"), Ins("r", "cneg", "r", "r") >>
+\* CompressedEdwardsY::decompress: Y from bytes (reduced) -> (X, Y, 1, XY)
+EdDecompress(y) == <<
+  Ins("YY", "sq", y, y), Ins("du", "sub", "YY", "kC"), Ins("yd", "mul", "YY", "kC"), Ins("dv", "add", "yd", "kC") >> \o SqrtRatioI("du", "dv") \o <<
+  Ins("r", "cneg", "r", "r"), Ins("X", "cp", "r", "r"), Ins("Y", "cp", y, y), Ins("Z", "cp", "kC", "kC"), Ins("T", "mul", "X", "Y") >>
+\* MontgomeryPoint::to_edwards: u from bytes
+MontToEdwards == << Ins("um1", "sub", "ub", "kC"), Ins("up1", "add", "ub", "kC") >> \o Invert("up1") \o << Ins("yb", "mul", "um1", "inv") >> \o EdDecompress("yb")
+\* ProjectivePoint::as_affine (end of the ladder)
+MontAsAffine == Invert("PW") \o << Ins("u", "mul", "PU", "inv") >>
+\* elligator_encode (r_0 from bytes)
+ElligatorEncode == << Ins("r2", "sq2", "ub", "ub"), Ins("d1", "add", "kC", "r2") >> \o Invert("d1") \o <<
+  Ins("ed", "mul", "kC", "inv"), Ins("dsq", "sq", "ed", "ed"), Ins("au", "mul", "kC", "ed"), Ins("in1", "add", "dsq", "au"), Ins("inner", "add", "in1", "kC"),
+  Ins("eps", "mul", "ed", "inner") >> \o SqrtRatioI("eps", "kC") \o << Ins("At", "csel", "kC", "kC"), Ins("eu", "add", "ed", "At"), Ins("eu", "cneg", "eu", "eu") >>
+\* RistrettoPoint::compress
+RisCompress == <<
+  Ins("zpy", "add", "Z", "Y"), Ins("zmy", "sub", "Z", "Y"), Ins("u1", "mul", "zpy", "zmy"), Ins("u2", "mul", "X", "Y"), Ins("u2s", "sq", "u2", "u2"),
+  Ins("arg", "mul", "u1", "u2s") >> \o SqrtRatioI("kC", "arg") \o <<
+  Ins("i1", "mul", "r", "u1"), Ins("i2", "mul", "r", "u2"), Ins("i2t", "mul", "i2", "T"), Ins("zinv", "mul", "i1", "i2t"),
+  Ins("iX", "mul", "X", "kC"), Ins("iY", "mul", "Y", "kC"), Ins("ench", "mul", "i1", "kC"), Ins("tz", "mul", "T", "zinv"),
+  Ins("rX", "csel", "X", "iY"), Ins("rY", "csel", "Y", "iX"), Ins("den", "csel", "i2", "ench"), Ins("xz", "mul", "rX", "zinv"), Ins("rY", "cneg", "rY", "rY"),
+  Ins("zmy2", "sub", "Z", "rY"), Ins("s", "mul", "den", "zmy2"), Ins("s", "cneg", "s", "s") >>
+\* CompressedRistretto::decompress step_2 (s from bytes) -> (x, y, 1, xy)
+RisDecompress == <<
+  Ins("ss", "sq", "ub", "ub"), Ins("u1", "sub", "kC", "ss"), Ins("u2", "add", "kC", "ss"), Ins("u2s", "sq", "u2", "u2"), Ins("nd", "neg", "kC", "kC"),
+  Ins("u1s", "sq", "u1", "u1"), Ins("t0", "mul", "nd", "u1s"), Ins("v", "sub", "t0", "u2s"), Ins("arg", "mul", "v", "u2s") >> \o SqrtRatioI("kC", "arg") \o <<
+  Ins("Dx", "mul", "r", "u2"), Ins("dxv", "mul", "Dx", "v"), Ins("Dy", "mul", "r", "dxv"), Ins("s2", "add", "ub", "ub"), Ins("x", "mul", "s2", "Dx"),
+  Ins("x", "cneg", "x", "x"), Ins("y", "mul", "u1", "Dy"), Ins("t", "mul", "x", "y"),
+  Ins("X", "cp", "x", "x"), Ins("Y", "cp", "y", "y"), Ins("Z", "cp", "kC", "kC"), Ins("T", "cp", "t", "t") >>
+\* elligator_ristretto_flavor (r_0 from bytes) -> completed point -> extended
+RisElligator == <<
+  Ins("r0s", "sq", "ub", "ub"), Ins("er", "mul", "kC", "r0s"), Ins("rp1", "add", "er", "kC"), Ins("Ns", "mul", "rp1", "kC"), Ins("dr", "mul", "kC", "er"),
+  Ins("cmdr", "sub", "kC", "dr"), Ins("rpd", "add", "er", "kC"), Ins("D", "mul", "cmdr", "rpd") >> \o SqrtRatioI("Ns", "D") \o <<
+  Ins("sp", "mul", "r", "ub"), Ins("sp", "cneg", "sp", "sp"), Ins("es", "csel", "r", "sp"), Ins("ec", "csel", "kC", "er"), Ins("rm1", "sub", "er", "kC"),
+  Ins("crm1", "mul", "ec", "rm1"), Ins("t1", "mul", "crm1", "kC"), Ins("Nt", "sub", "t1", "D"), Ins("ssq", "sq", "es", "es"), Ins("s2", "add", "es", "es"),
+  Ins("cX", "mul", "s2", "D"), Ins("cZ", "mul", "Nt", "kC"), Ins("cY", "sub", "kC", "ssq"), Ins("cT", "add", "kC", "ssq") >>
+\* double_and_compress_batch, one point (the batch inversion acts on reduced products)
+RisBatchCompress == <<
+  Ins("XX", "sq", "X", "X"), Ins("YY", "sq", "Y", "Y"), Ins("ZZ", "sq", "Z", "Z"), Ins("TT", "sq", "T", "T"), Ins("dTT", "mul", "TT", "kC"),
+  Ins("y2", "add", "Y", "Y"), Ins("be", "mul", "X", "y2"), Ins("bf", "add", "ZZ", "dTT"), Ins("bg", "add", "YY", "XX"), Ins("bh", "sub", "ZZ", "dTT"),
+  Ins("eg", "mul", "be", "bg"), Ins("fh", "mul", "bf", "bh"), Ins("efgh", "mul", "eg", "fh") >> \o Invert("efgh") \o <<
+  Ins("Zinv", "mul", "eg", "inv"), Ins("Tinv", "mul", "fh", "inv"), Ins("nc1", "mul", "eg", "Zinv"), Ins("me", "neg", "be", "be"), Ins("fs", "mul", "bf", "kC"),
+  Ins("e2", "csel", "be", "bg"), Ins("g2", "csel", "bg", "me"), Ins("h2", "csel", "bh", "fs"), Ins("he", "mul", "h2", "e2"), Ins("hez", "mul", "he", "Zinv"),
+  Ins("g2", "cneg", "g2", "g2"), Ins("hmg", "sub", "h2", "g2"), Ins("gt", "mul", "g2", "Tinv"), Ins("mgt", "mul", "kC", "gt"), Ins("s", "mul", "hmg", "mgt"),
+  Ins("s", "cneg", "s", "s") >>
+\* Ristretto equality: cross products of the coordinates of two points
+RisEq == << Ins("a", "mul", "X", "Y"), Ins("b", "mul", "Y", "X") >>
+
 \* ---- the state machine over bound-states of an extended point and a cached (Niels) operand --------
 Coords == {"X", "Y", "Z", "T"}
 NielsF == {"nYpX", "nYmX", "nZ", "nT2d"}
 LadderF == {"PU", "PW", "QU", "QW", "aff"}
-Consts == [kD2 |-> U, kA24 |-> U]
+\* kC: any shipped field constant (ONE, d, sqrt(-1), A, the Ristretto constants ...): reduced; ub: a value from from_bytes
+Consts == [kD2 |-> U, kA24 |-> U, kC |-> U, ub |-> U]
 VARIABLES env,       \* current factors of all live values
           viol       \* violated preconditions found so far
 vars == <<env, viol>>
@@ -115,13 +183,17 @@ vars == <<env, viol>>
 \* shipped table entries (affine Niels) may be one bit above the radix (checked by C12): 2 * U
 Init == /\ env = [n \in Coords \cup LadderF |-> U] @@ [n \in NielsF |-> 2 * U] @@ Consts
         /\ viol = {}
-Run(prog) == LET r == Exec(prog, env) IN env' = r[1] /\ viol' = viol \cup r[2]
+\* temporaries of a formula do not outlive it: only the point, the cached operand, the ladder state and the constants persist
+Run(prog) == LET r == Exec(prog, env) IN env' = [n \in DOMAIN env |-> r[1][n]] /\ viol' = viol \cup r[2]
 Next == \/ Run(ToProjNiels) \/ Run(NegNiels)
         \/ Run(AddProjNiels \o ToExtended) \/ Run(SubProjNiels \o ToExtended)
         \/ Run(AddAffNiels \o ToExtended) \/ Run(SubAffNiels \o ToExtended)
         \/ Run(AddProjNiels \o ToProjective) \/ Run(AddAffNiels \o ToProjective)
         \/ Run(DoubleProj \o ToExtended) \/ Run(DoubleProj \o ToProjective)
-        \/ Run(Compress) \/ Run(ToMont) \/ Run(CtEq) \/ Run(Ladder)
+        \/ Run(Compress) \/ Run(ToMont) \/ Run(CtEq) \/ Run(Ladder) \/ Run(Ladder \o MontAsAffine)
+        \/ Run(EdDecompress("ub")) \/ Run(MontToEdwards) \/ Run(ElligatorEncode)
+        \/ Run(RisCompress) \/ Run(RisDecompress) \/ Run(RisElligator \o ToExtended) \/ Run(RisBatchCompress) \/ Run(RisEq)
+        \/ Run(Invert("Z")) \/ Run(SqrtRatioI("X", "Y"))
 \* C11: every kernel precondition and side condition holds at every program point, along every chain of formulas
 NoViolation == viol = {}
 \* the boundary type invariant is inductive: coordinates stay (weakly) reduced
